@@ -96,6 +96,7 @@ def strategy(tier):
                          st.tuples(st.integers(3, 20000), st.sampled_from([1e-15, 1e-13, 3e-12, 1e-11, 1e-10, -1e-11, -1e-13])
                                    ).map(lambda t: (2 / t[0]) * (1 - t[1]))),
     })
+    cms = st.tuples(cms, st.sampled_from([0, 0, 0, 1, 2])).map(lambda t: dict(t[0], numtype=t[1]))
     cuckoo = st.fixed_dictionaries({"t": st.just("cuckoo"), "b": st.integers(1, 8),
                                     "u": st.floats(0.0, 9.6), "pow2": st.booleans(),
                                     "cls": st.sampled_from(["cuckoo", "counting"])})
@@ -261,6 +262,16 @@ def _cms_case(case, ctx):
     from probables import CountMinSketch
 
     c, e = case["conf"], case["err"]
+    nt_ = case.get("numtype", 0)
+    if nt_:
+        # the constructor accepts any numbers.Number: the same request as a Decimal / a Fraction (exact arithmetic in the oracle)
+        from decimal import Decimal
+        from fractions import Fraction
+        conv = (lambda x: Decimal(repr(x))) if nt_ == 1 else (lambda x: Fraction(x).limit_denominator(10 ** 6))
+        c, e = conv(c), conv(e)
+        if not (0 < c < 1 and 0 < e < 1):
+            return
+        ctx.feat("cms_params_" + ("Decimal" if nt_ == 1 else "Fraction"))
     try:
         s = CountMinSketch(confidence=c, error_rate=e)
     except Exception as ex:  # noqa
@@ -270,9 +281,15 @@ def _cms_case(case, ctx):
         ctx.feat("rejected_cms_" + type(ex).__name__)
         return
     w, d = s.width, s.depth
+    if nt_:
+        from fractions import Fraction
+        ctx.check("C07.cms", w >= 1 and Fraction(2, w) <= Fraction(e), lambda: f"error_rate={e!r}: width {w}, 2/width={2/w!r} exceeds it")
+    c0, e0 = c, e
+    if nt_:
+        c, e = float(c), float(e)
     ctx.check("C07.cms", w >= 1 and 2 / w <= e * (1 + 1e-12), lambda: f"error_rate={e!r}: width {w}, 2/width={2/w!r}")
     ctx.check("C07.cms", 1 - 2.0 ** -d >= c * (1 - 1e-12), lambda: f"confidence={c!r}: depth {d}, 1-2^-d={1-2.0**-d!r}")
-    s2 = CountMinSketch(confidence=c, error_rate=e)
+    s2 = CountMinSketch(confidence=c0, error_rate=e0)
     ctx.check("C07.cms", (s2.width, s2.depth) == (w, d), "second construction differs")
     if w * d <= 1 << 16:
         g = CountMinSketch.frombytes(bytes(s))
